@@ -3,6 +3,7 @@
 //! NDJSON for TLC.
 #![feature(rustc_private)]
 extern crate rustc_driver;
+extern crate rustc_lexer;
 
 use std::collections::HashMap;
 use std::io::{BufRead, Write};
@@ -22,6 +23,7 @@ fn main() {
         "newline" => newline(&args[2..]),
         "filelines" => filelines(&args[2..]),
         "versionsort" => versionsort(),
+        "commentkind" => commentkind(),
         _ => {
             eprintln!("usage: rfv-unit <makediff|makediff-pairs> ...");
             std::process::exit(2);
@@ -602,4 +604,30 @@ fn versionsort() {
         })
         .collect();
     println!("{}", json!({"kind": "cmp", "table": table}));
+}
+
+/// C03 / spec/CommentKind.tla: the real rustc_lexer and the real comment_style on a list of
+/// comment texts.
+fn commentkind() {
+    let mut input = String::new();
+    std::io::Read::read_to_string(&mut std::io::stdin(), &mut input).unwrap();
+    let texts: Vec<String> = serde_json::from_str(&input).unwrap();
+    let out: Vec<Value> = texts
+        .iter()
+        .map(|t| {
+            let tok = rustc_lexer::tokenize(t).next();
+            let (is_comment, lexdoc) = match tok.map(|t| t.kind) {
+                Some(rustc_lexer::TokenKind::LineComment { doc_style }) => (true, doc_style.is_some()),
+                Some(rustc_lexer::TokenKind::BlockComment { doc_style, .. }) => {
+                    (true, doc_style.is_some())
+                }
+                _ => (false, false),
+            };
+            let (s0, d0) = verif::comment_style_name(t, false);
+            let (s1, d1) = verif::comment_style_name(t, true);
+            json!({"comment": is_comment, "lexdoc": lexdoc, "style0": s0, "isdoc0": d0,
+                   "style1": s1, "isdoc1": d1})
+        })
+        .collect();
+    println!("{}", json!(out));
 }
